@@ -4,4 +4,5 @@ CONSTANTS
   NProc = 2
   AllowWrite = TRUE
   AllowAlias = FALSE
+  AllowPool = FALSE
   MaxCalls = 2
